@@ -264,6 +264,12 @@ def writeSingleSegment (cx : Ctx) (seg : Segment) (sections : List Str) (noload 
 def findClass (d : Document) (n : Str) : Option VramClass :=
   d.vramClasses.reverse.find? (fun c => c.name = n)
 
+/-- the followed classes whose end symbol exists: those that some emitted segment of the
+document uses (a class nobody uses gets no symbols, so its end is not referenced). -/
+def followedUsed (cx : Ctx) (vc : VramClass) : List Str :=
+  vc.followsClasses.filter fun other =>
+    cx.d.segments.any fun s => decide (s.vramClass = some other) && shouldEmit cx.o s.cond
+
 /-- the class-symbol block written before the first emitted member of a class. -/
 def classIntro (cx : Ctx) (cname : Str) (vc : VramClass) : List Line :=
   let st := cx.d.settings.style
@@ -273,7 +279,7 @@ def classIntro (cx : Ctx) (cname : Str) (vc : VramClass) : List Line :=
    | none =>
      match vc.fixedSymbol with
      | some fs => [linkerSym s (.sym fs)]
-     | none => linkerSym s (.hex8 0) :: vc.followsClasses.map (fun other => maxSelf s (st.classEnd other)))
+     | none => linkerSym s (.hex8 0) :: (followedUsed cx vc).map (fun other => maxSelf s (st.classEnd other)))
   ++ [linkerSym (st.classEnd cname) (.hex8 0), .blank]
 
 /-- the vram-class prologue of `add_segment`: error for an undeclared class, the class symbols
